@@ -111,6 +111,18 @@ def layers(tier):
                 jobs.append({'filter': name, 'meas': meas, 't': t,
                              'gen': {'gen': 'univ', 'K': Kt - 1, 'Kr': Kt - 3, 'lwin': [1, Kt - 2]},
                              'n_jobs': 1, 'pres': pres})
+    # other tokenizer kinds (q-gram sets, delimiter, alphanumeric) and non-ASCII spellings, whatever the seed
+    for name in ('Size', 'Prefix', 'Position', 'Overlap'):
+        for meas in (PRUNED_MEASURES if name != 'Overlap' else ('OVERLAP',)):
+            for t in ((1, 2) if meas == 'OVERLAP' else (0.3, 0.6, 1.0)):
+                for spec, gen in ((['qg', 2, True, True], {'gen': 'struniv', 'alpha': 'ab', 'maxlen': 4}),
+                                  (['qg', 3, False, True], {'gen': 'struniv', 'alpha': 'ab', 'maxlen': 5}),
+                                  (['delim', [',', ';;'], True], {'gen': 'struniv', 'alpha': 'abc', 'maxlen': 3, 'sep': ';;'}),
+                                  (['alnum', True], {'gen': 'struniv', 'alpha': 'abc', 'maxlen': 3, 'sep': ' - '})):
+                    jobs.append({'filter': name, 'meas': meas, 't': t, 'gen': gen, 'tok': spec, 'n_jobs': 2,
+                                 'pres': pres, 'candset': spec[0] == 'qg' and spec[1] == 2})
+                jobs.append({'filter': name, 'meas': meas, 't': t, 'gen': {'gen': 'univ', 'K': 4}, 'n_jobs': 1,
+                             'pres': 2, 'candset': True})
     Ls.append(Layer('tables', 'checks.filters:w_ftables', jobs,
                     'filter_tables on UNIV(%d) (table-level token order) x n_jobs 1..3 under the owned '
                     'scheduler, skewed/windowed universes, and filter_candset on the full cross product of '
